@@ -86,7 +86,8 @@ CHECKS["C05"] = {
                   "buffers that held other sets during an unrelated preceding read; part insert-long: comment lines of 8 Ki .. 40000 characters with every token "
                   "of 1 (quick) / <= 2 (thorough) structural characters placed at the offsets around 8192, 16384 and 32768; part insert-format: ten texts that "
                   "mean something to printf-style functions (%, %s, %n, 90%, over-wide widths); part insert-openquote: base files whose values are v, \"q r (quote still open) and \"q\" r (quote closed early), "
-                  "texts of length <= 2 (quick) / 3 (thorough) - the first sentence of the statement holds after any line",
+                  "texts of length <= 2 (quick) / 3 (thorough) - the first sentence of the statement holds after any line; part insert-python-style: the files are read "
+                  "as main file of econf_readConfig with PYTHON_STYLE=1, where an indented line would continue the previous value",
     "level_note": "bounded: N<=2, L<=3 (quick) / L<=4 and N<=3 with L<=3 (thorough); trusted: only the equality test (differential, no hand-written expectation)",
     "rule": "case = (configuration, base file, insertion point, indentation, comment char, text); non-trivial = text contains a structural character, or the line "
             "is indented, or it directly follows an entry line; distinct by construction",
@@ -99,6 +100,8 @@ CHECKS["C05"] = {
         {"name": "insert-format", "harness": "c05", "variant": "asan", "quick": ["--p0", 2, "--p3", 2], "thorough": ["--p0", 3, "--p3", 2],
          "deadline_share": 0.1, "floor": {"quick": 10000, "thorough": 100000}},
         {"name": "insert-openquote", "harness": "c05", "variant": "asan", "quick": ["--p0", 2, "--p1", 2, "--p4", 1], "thorough": ["--p0", 2, "--p1", 3, "--p4", 1],
+         "deadline_share": 0.1, "floor": {"quick": 10000, "thorough": 100000}},
+        {"name": "insert-python-style", "harness": "c05", "variant": "asan", "quick": ["--p0", 2, "--p1", 2, "--p5", 1], "thorough": ["--p0", 2, "--p1", 3, "--p5", 1],
          "deadline_share": 0.1, "floor": {"quick": 10000, "thorough": 100000}},
         {"name": "insert-3lines", "harness": "c05", "variant": "asan", "tiers": ["thorough"], "thorough": ["--p0", 3, "--p1", 3],
          "deadline_share": 0.35, "floor": {"thorough": 1000000}},
